@@ -5,19 +5,19 @@ HERE = os.path.dirname(os.path.dirname(os.path.abspath(__file__)))
 
 CHECKS = {
  "C01": dict(
-    text="TLC proves the letter algebra (Mul/Anti) against explicit Gaussian-integer matrices for every operator pair (N<=2 quick, N<=3 thorough), associativity, squares and that the bit kernels refine it; every edge of the Pauli-group Cayley graph (N<=3) plus TLC-simulated product chains (N=4..8) is replayed into Pauli.__matmul__/acq/ipow/acq_mat/batch_dot of both packages and every recorded result is judged by TLC against the specification. Also: products on live operands (re-used after in-place rotation), calls recorded from the repository's own tests (thorough). One register across the 64-bit word boundary (63..130 qubits).",
+    text="TLC proves the letter algebra (Mul/Anti) against explicit Gaussian-integer matrices for every operator pair (N<=2 quick, N<=3 thorough), associativity, squares and that the bit kernels refine it; every edge of the Pauli-group Cayley graph (N<=3) plus TLC-simulated product chains (N=4..8) is replayed into Pauli.__matmul__/acq/ipow/acq_mat/batch_dot of both packages and every recorded result is judged by TLC against the specification. Also: products on live operands (re-used after in-place rotation), calls recorded from the repository's own tests (thorough). One register across the 64-bit word boundary (63..130 qubits). Same-object squares, element types of user arrays (lenient), large batched tables.",
     note="Trusted: TLC, the 4-entry bits<->letters projection in harness/backend.py, JSON plumbing. Exhaustive for N<=3 on the code; N>3 sampled.",
     design="4/C01", technique="TLA+ Cayley-graph model (TLC exhaustive) + matrix grounding ASSUMEs + replay of every TLC edge into the code, trace validated by TLC"),
  "C02": dict(
-    text="TLC grounds Rot(G,P) as exact conjugation ((1-iG)P(1+iG) = 2 Rot) in Gaussian-integer matrices and proves inverse/order-4/homomorphism theorems over the whole N<=2 group; every generator x every operator (all object kinds, masks on N=3) and every edge of the TLC Clifford-group walk is replayed into rotate_by/clifford_rotate/clifford_rotation_map of both packages; TLC judges every recorded result; TLC-simulated rotation sequences with appended inverse for N=3..5. Also: a 40-qubit register with >1000 operators, operands in other memory layouts (reversed/strided views, column-major arrays, maps returned by inverse()). Registers of 64..70 qubits incl. masks on the high qubits.",
+    text="TLC grounds Rot(G,P) as exact conjugation ((1-iG)P(1+iG) = 2 Rot) in Gaussian-integer matrices and proves inverse/order-4/homomorphism theorems over the whole N<=2 group; every generator x every operator (all object kinds, masks on N=3) and every edge of the TLC Clifford-group walk is replayed into rotate_by/clifford_rotate/clifford_rotation_map of both packages; TLC judges every recorded result; TLC-simulated rotation sequences with appended inverse for N=3..5. Also: a 40-qubit register with >1000 operators, operands in other memory layouts (reversed/strided views, column-major arrays, maps returned by inverse()). Registers of 64..70 qubits incl. masks on the high qubits. Generators that are elements of the rotated list, element types, empty / singleton lists, 520-qubit rotation maps.",
     note="Trusted: TLC, bits<->letters projection, mask construction from qubit lists. Exhaustive N<=2 (+masked N=3); N=3..5 sampled.",
     design="4/C02", technique="TLA+ Clifford-group walk (TLC exhaustive, 11520 states) + matrix-grounded Rot + replay of TLC edges/behaviours, trace validated by TLC"),
  "C03": dict(
-    text="TLC enumerates the whole Clifford group for N<=2 (24 / 11520 maps) as a walk by rotations and checks in every state that Apply is a phase-exact homomorphism fixing the listed generator images, preserves commutation and Hermiticity, and that the library's pauli_transform formula (transcribed) refines it; every reachable map x the whole Pauli group is replayed into transform_by / pauli_transform / embed / pauli_combine / ps0 (both packages), masks and embeddings on N=3, larger maps from TLC -simulate; TLC judges every record. Also: 40-qubit registers, operands and maps in other memory layouts, map pools for N=3..5 from TLC. An entangling 66-qubit map from a TLC walk (MC_RotSim N=66).",
+    text="TLC enumerates the whole Clifford group for N<=2 (24 / 11520 maps) as a walk by rotations and checks in every state that Apply is a phase-exact homomorphism fixing the listed generator images, preserves commutation and Hermiticity, and that the library's pauli_transform formula (transcribed) refines it; every reachable map x the whole Pauli group is replayed into transform_by / pauli_transform / embed / pauli_combine / ps0 (both packages), masks and embeddings on N=3, larger maps from TLC -simulate; TLC judges every record. Also: 40-qubit registers, operands and maps in other memory layouts, map pools for N=3..5 from TLC. An entangling 66-qubit map from a TLC walk (MC_RotSim N=66). Same-object map and operand, element types, empty / singleton lists.",
     note="Quick subsamples the 11520 N=2 maps by VERIF_SEED (thorough: all). Trusted: TLC, projection, JSON plumbing.",
     design="4/C03", technique="TLA+ group walk with homomorphism invariants (TLC) + replay of every emitted map into the code, trace validated by TLC"),
  "C04": dict(
-    text="The TLC walk carries the inverse map compositionally; invariants IsInverse / neutrality / associativity / anti-homomorphism hold in all 24 / 11520 states and on all 345600 edges; inverse() on every map and compose() along every walk edge (thorough; sampled in quick), arbitrary pairs/triples, identity_map, z2inv refusal of singular matrices are replayed into both packages, with operands snapshotted before/after and result freshness observed; TLC judges every record. Also: maps on 9, 12 and 16 qubits from TLC walks; each result is changed in place by its owner and the operation repeated (no memo may leak). A 66-qubit map and its inverse from a TLC walk (132-column GF(2) elimination).",
+    text="The TLC walk carries the inverse map compositionally; invariants IsInverse / neutrality / associativity / anti-homomorphism hold in all 24 / 11520 states and on all 345600 edges; inverse() on every map and compose() along every walk edge (thorough; sampled in quick), arbitrary pairs/triples, identity_map, z2inv refusal of singular matrices are replayed into both packages, with operands snapshotted before/after and result freshness observed; TLC judges every record. Also: maps on 9, 12 and 16 qubits from TLC walks; each result is changed in place by its owner and the operation repeated (no memo may leak). A 66-qubit map and its inverse from a TLC walk (132-column GF(2) elimination). Self-composition of one object.",
     note="Trusted: TLC, projection; freshness uses numpy.shares_memory / data_ptr from outside.",
     design="4/C04", technique="TLA+ group walk carrying (m, m^-1) (TLC exhaustive) + replay of states/edges into compose/inverse, trace validated by TLC"),
  "C05": dict(
@@ -25,63 +25,63 @@ CHECKS = {
     note="Closure claim only in thorough. Standby/destabilizer phases are not constrained (never read into active rows).",
     design="4/C05", technique="TLA+ signed-group semantics grounded in matrices (TLC) + one-step closure of the real code over all valid tableaux + replay of TLC-simulated histories, trace validated by TLC"),
  "C06": dict(
-    text="SemMeasure (Born rule + projection on signed stabilizer groups) is grounded by TLC in density matrices for all 91 N=2 states x 32 observables x 2 outcomes; the real measure() is run on every tableau (N<=2 complete in thorough) x every signed observable, commuting lists, state arguments, under enumerated coin schedules until every outcome of non-zero probability is seen; TLC checks outcome possible, log2prob, post-state = projection, rank, repeatability, and that exactly the possible outcome vectors occur. Also: observable lists made of arbitrary group elements (dependent entries) on mixed states; coin schedules 40 x branches. Entangled blocks on the last qubits of 66..71-qubit mixed registers (observables on both sides of qubit 64).",
+    text="SemMeasure (Born rule + projection on signed stabilizer groups) is grounded by TLC in density matrices for all 91 N=2 states x 32 observables x 2 outcomes; the real measure() is run on every tableau (N<=2 complete in thorough) x every signed observable, commuting lists, state arguments, under enumerated coin schedules until every outcome of non-zero probability is seen; TLC checks outcome possible, log2prob, post-state = projection, rank, repeatability, and that exactly the possible outcome vectors occur. Also: observable lists made of arbitrary group elements (dependent entries) on mixed states; coin schedules 40 x branches. Entangled blocks on the last qubits of 66..71-qubit mixed registers (observables on both sides of qubit 64). State arguments drawn (not strided) over all ranks and sign patterns.",
     note="Coins are steered by seeding numba's generator from outside (no hooks). Quick samples 1500 N=2 tableaux.",
     design="4/C06", technique="TLA+ measurement semantics grounded in matrices (TLC) + exhaustive replay over tableaux x observables x coin branches, trace validated by TLC"),
  "C07": dict(
-    text="Expect / Overlap / Prob set formulas are grounded by TLC against Tr(rho P), Tr(rho sigma) (all 91x91 pairs) and rho[b,b] with sum 1; expect() on lists, Paulis, monomials, polynomials with phases i/-i and dyadic Gaussian coefficients, expect(state) for pairs of states of every rank, get_prob for all bit strings, and the torch kernels are recorded on the N<=2 tableau space and N=3,4 walks; TLC judges values and that receiver/argument are bitwise unchanged. Also: a 36-qubit rank-33 product state; calls from the refusal table of API.tla (model drift). The rank-(N-3) product state also on 70 qubits.",
+    text="Expect / Overlap / Prob set formulas are grounded by TLC against Tr(rho P), Tr(rho sigma) (all 91x91 pairs) and rho[b,b] with sum 1; expect() on lists, Paulis, monomials, polynomials with phases i/-i and dyadic Gaussian coefficients, expect(state) for pairs of states of every rank, get_prob for all bit strings, and the torch kernels are recorded on the N<=2 tableau space and N=3,4 walks; TLC judges values and that receiver/argument are bitwise unchanged. Also: a 36-qubit rank-33 product state; calls from the refusal table of API.tla (model drift). The rank-(N-3) product state also on 70 qubits. Element types of observable arrays, coefficients down to 2^-22, get_prob records from the repository's tests.",
     note="Mixed-receiver expect(state) is an explicit refusal (NotImplementedError) and accepted as such.",
     design="4/C07", technique="TLA+ trace formulas grounded in matrices (TLC) + replay over the tableau space, trace validated by TLC"),
  "C08": dict(
-    text="Entropy(S,A) = |A| - log2|S_A| is grounded by TLC against explicit partial traces (flat spectrum) for all 91 N=2 states, with region/complement symmetry and invariance under local rotations; entropy() is recorded for every tableau (N<=2) and TLC-simulated N=3..5 tableaux of every rank x all 2^N regions in three input forms (both packages); TLC judges every value. Also: regions named by unsorted lists, numpy integer arrays, ranges and lists naming a qubit twice. Entangled blocks inside 66/70-qubit registers: mixed padding judged directly, pure padding through the padding lemma MC_Pad (TLC, all groups on <=2 qubits x paddings <=2).",
+    text="Entropy(S,A) = |A| - log2|S_A| is grounded by TLC against explicit partial traces (flat spectrum) for all 91 N=2 states, with region/complement symmetry and invariance under local rotations; entropy() is recorded for every tableau (N<=2) and TLC-simulated N=3..5 tableaux of every rank x all 2^N regions in three input forms (both packages); TLC judges every value. Also: regions named by unsorted lists, numpy integer arrays, ranges and lists naming a qubit twice. Entangled blocks inside 66/70-qubit registers: mixed padding judged directly, pure padding through the padding lemma MC_Pad (TLC, all groups on <=2 qubits x paddings <=2). torch.bool masks; GHZ states in rotated bases on 129..140 qubits (lemma MC_Pad!GHZEntropy); L2 ImplEntropy = Entropy on the complete N<=2 tableau space (MC_Tableau).",
     note="N<=2 entropies are 0/1; non-trivial mixed cases come from the N=3..5 samples.",
     design="4/C08", technique="TLA+ entropy formula grounded in partial traces (TLC) + replay over tableaux x regions, trace validated by TLC"),
  "C11": dict(
-    text="The textbook tables of H,S,X,Y,Z,CNOT (both orientations) are written in TLA+ and grounded by TLC in explicit matrices (H'=X+Z, S=diag(1,i), CNOT 0/1); the 24 valid one-qubit maps form a group. Every named gate, every placement in registers N<=4 (through the gate, a Circuit and a CliffordCircuit), all 24 C(k) with their placements, and the documented error cases are recorded from the code and judged by TLC. Finite and exhaustive. Placements around qubit 64 of a 66-qubit register.",
+    text="The textbook tables of H,S,X,Y,Z,CNOT (both orientations) are written in TLA+ and grounded by TLC in explicit matrices (H'=X+Z, S=diag(1,i), CNOT 0/1); the 24 valid one-qubit maps form a group. Every named gate, every placement in registers N<=4 (through the gate, a Circuit and a CliffordCircuit), all 24 C(k) with their placements, and the documented error cases are recorded from the code and judged by TLC. Finite and exhaustive. Placements around qubit 64 of a 66-qubit register. int8 / uint8 / int16 labels on 96..201-qubit registers.",
     note="Complete for the finite tables; placements up to N=4.",
     design="4/C11", technique="TLA+ gate tables grounded in matrices (TLC ASSUMEs) + exhaustive recording of the library's tables/placements, trace validated by TLC"),
  "C12": dict(
-    text="to_state/to_map round trips on every valid map (N<=2, all rank arguments) are compared at representation level and against 'apply the map to |0..0>'; constructors (zero, one, GHZ, mixed, random bit/product/Clifford) N<=5 against the TLA+ constants grounded in matrices; dense to_qutip exports entry-wise against the sum of group-element matrices; stabilizer_state() on every ordered signed sub-list of stabilizer halves in four input formats, anticommuting lists must raise ValueError. Both packages; TLC judges every record. Also: the same map object converted again after in-place changes (live maps); invalid lists built from X/Z/Y images; L2: the transcribed stabilizer_project / stabilizer_state (MC_Project refinement theorem, Drift_FromStab). stabilizer_state() on lists placed in 66/70-qubit registers.",
+    text="to_state/to_map round trips on every valid map (N<=2, all rank arguments) are compared at representation level and against 'apply the map to |0..0>'; constructors (zero, one, GHZ, mixed, random bit/product/Clifford) N<=5 against the TLA+ constants grounded in matrices; dense to_qutip exports entry-wise against the sum of group-element matrices; stabilizer_state() on every ordered signed sub-list of stabilizer halves in four input formats, anticommuting lists must raise ValueError. Both packages; TLC judges every record. Also: the same map object converted again after in-place changes (live maps); invalid lists built from X/Z/Y images; L2: the transcribed stabilizer_project / stabilizer_state (MC_Project refinement theorem, Drift_FromStab). stabilizer_state() on lists placed in 66/70-qubit registers. Generator-expression arguments; to_state / stabilizer_state calls recorded from the repository's tests and notebooks (thorough).",
     note="Dense exports are rounded to integers within 1e-5 after scaling by 2^N (float rounding is outside the model).",
     design="4/C12", technique="TLA+ constructor/duality semantics (TLC) + replay over all maps and stabilizer lists, trace validated by TLC"),
  "C09": dict(
-    text="TLC enumerates every gate program of at most 3 (quick) / 4 (thorough) items over a 14-gate alphabet on N=3 (named, generator, forward-map, backward-map-only, two-map, local and global gates), packs each with a transcription of take() and proves the packing legal, layer order = program order as a map, and locality; the driver rebuilds each program in both circuit classes x {uncompiled, layers compiled, circuit compiled} x {original, copy, composed halves} (both packages), records the layer layout and the forward / gate-by-gate images of map, phased-list and signed-state probes; TLC judges layout legality (any legal packing accepted) and forward = sequential application. Also: TLC-simulated programs of 10 gates on N=4..6 (MC_CircuitSim), programs relabelled onto qubits around index 64, generators re-assigned after use, compose() independence probe, refusal table (model drift).",
+    text="TLC enumerates every gate program of at most 3 (quick) / 4 (thorough) items over a 14-gate alphabet on N=3 (named, generator, forward-map, backward-map-only, two-map, local and global gates), packs each with a transcription of take() and proves the packing legal, layer order = program order as a map, and locality; the driver rebuilds each program in both circuit classes x {uncompiled, layers compiled, circuit compiled} x {original, copy, composed halves} (both packages), records the layer layout and the forward / gate-by-gate images of map, phased-list and signed-state probes; TLC judges layout legality (any legal packing accepted) and forward = sequential application. Also: TLC-simulated programs of 10 gates on N=4..6 (MC_CircuitSim), programs relabelled onto qubits around index 64, generators re-assigned after use, compose() independence probe, refusal table (model drift). Empty programs, explicit-label rotation gates, 9..12-qubit registers, dense 24-qubit single-map gates.",
     note="Programs longer than 4 are not enumerated. Quick rotates 3 of the 12 configurations per program.",
     design="4/C09", technique="TLA+ circuit-program model with transcribed take() (TLC exhaustive) + replay of every program/configuration, layouts and probe images validated by TLC"),
  "C10": dict(
-    text="Same programs and configurations as C09: TLC proves on the model that backward inverts forward (both orders) and compiled inverse = inverse of compiled forward; on the code, forward-then-backward and backward-then-forward must return map, list (all four phases) and signed rank-1 state probes bitwise, and backward alone must equal the inverse gates in reverse order; judged by TLC. Also: the MC_CircuitSim programs, wide registers and re-assigned generators of C09.",
+    text="Same programs and configurations as C09: TLC proves on the model that backward inverts forward (both orders) and compiled inverse = inverse of compiled forward; on the code, forward-then-backward and backward-then-forward must return map, list (all four phases) and signed rank-1 state probes bitwise, and backward alone must equal the inverse gates in reverse order; judged by TLC. Also: the MC_CircuitSim programs, wide registers and re-assigned generators of C09. Compose argument run backward after the composed circuit was extended.",
     note="As C09.",
     design="4/C10", technique="TLA+ circuit-program model (TLC) + replay with round-trip probes, trace validated by TLC"),
  "C13": dict(
-    text="Same-named kernels of the two utils.py and the shared class methods are called with identical well-formed inputs (valid maps and tableaux emitted by TLC for N<=2, TLC-simulated N=3,4; Pauli lists; masks; binary matrices; identical coin outcomes for measurement); normalised return values are paired per call and TLC requires equality (an exception on one side only is a disagreement). Every family is additionally judged against the semantics in both packages by the other checks (C01-C04, C07-C10, C12, C15, C16, C18, C20 run with the torch backend).",
+    text="Same-named kernels of the two utils.py and the shared class methods are called with identical well-formed inputs (valid maps and tableaux emitted by TLC for N<=2, TLC-simulated N=3,4; Pauli lists; masks; binary matrices; identical coin outcomes for measurement); normalised return values are paired per call and TLC requires equality (an exception on one side only is a disagreement). Every family is additionally judged against the semantics in both packages by the other checks (C01-C04, C07-C10, C12, C15, C16, C18, C20 run with the torch backend). Lenient pairs for from-the-end labels; wide polynomial pairs.",
     note="Relational property: the TLA+ part is the pairing invariant plus the per-package trace specifications. Functions existing in one package only are outside the property. Three open findings (torch measure, torch pivot order, pyclifford trace phase).",
     design="4/C13", technique="TLA+ trace specification over paired records (TLC) + both packages validated against the same specifications"),
  "C14": dict(
-    text="Programs interleaving gates and measurement layers (MC_Circuit alphabet incl. Mz[1], Mz[2,3], length <=3 quick / <=4 thorough) are run through Circuit on zero/GHZ/mixed/TLC-simulated inputs under several coin schedules; TLC replays the recorded outcomes through the sequential semantics (gates by Forward, Mz by SemMeasureList): outcomes possible, +1/-1 in order, log2prob accumulated, state and rank as direct measurements, layout legal (no gate crosses a measurement). backward with the circuit's own record, the same record, every single-bit corruption and wrong lengths: adjoint trajectory or ValueError exactly when impossible. Direct MeasureLayer calls; postselect on every pure N<=2 tableau x signed Pauli x outcome (probability, projected state, unchanged when impossible, refusal on mixed). Also: a second forward run on the same Circuit followed by backward without a record. Measurement layers on qubits >= 64.",
+    text="Programs interleaving gates and measurement layers (MC_Circuit alphabet incl. Mz[1], Mz[2,3], length <=3 quick / <=4 thorough) are run through Circuit on zero/GHZ/mixed/TLC-simulated inputs under several coin schedules; TLC replays the recorded outcomes through the sequential semantics (gates by Forward, Mz by SemMeasureList): outcomes possible, +1/-1 in order, log2prob accumulated, state and rank as direct measurements, layout legal (no gate crosses a measurement). backward with the circuit's own record, the same record, every single-bit corruption and wrong lengths: adjoint trajectory or ValueError exactly when impossible. Direct MeasureLayer calls; postselect on every pure N<=2 tableau x signed Pauli x outcome (probability, projected state, unchanged when impossible, refusal on mixed). Also: a second forward run on the same Circuit followed by backward without a record. Measurement layers on qubits >= 64. Circuits compiled while unitary and extended afterwards.",
     note="Backward/post-selection only on pure states (documented refusal otherwise).",
     design="4/C14", technique="TLA+ trajectory semantics over the circuit-program model (TLC) + replay with recorded outcome records, trace validated by TLC"),
  "C15": dict(
-    text="PauliPoly (sums, products, scalars, traces, equality of denotations) is grounded by TLC in 4x4 Gaussian-integer matrices; a typed stack machine enumerates every well-typed expression with at most two binary operators plus unary wrappers over a 13-element operand pool (Pauli, monomial, polynomial with repeated strings and all phases, list, numbers); each arithmetic step is executed with the real operators and judged by TLC on exact denotations (+, -, @, number*, /number, neg, reduce incl. explicit tolerances, trace, copy, rotation linearity, dense export), operands must be unchanged; both packages. Also: scalars next to the units 1, -1, i, -i (c = u(1 +- 2^-k), k = 14..23, exact at 2^-24) and histories on live operands.",
+    text="PauliPoly (sums, products, scalars, traces, equality of denotations) is grounded by TLC in 4x4 Gaussian-integer matrices; a typed stack machine enumerates every well-typed expression with at most two binary operators plus unary wrappers over a 13-element operand pool (Pauli, monomial, polynomial with repeated strings and all phases, list, numbers); each arithmetic step is executed with the real operators and judged by TLC on exact denotations (+, -, @, number*, /number, neg, reduce incl. explicit tolerances, trace, copy, rotation linearity, dense export), operands must be unchanged; both packages. Also: scalars next to the units 1, -1, i, -i (c = u(1 +- 2^-k), k = 14..23, exact at 2^-24) and histories on live operands. 13..66-qubit polynomials with long common prefixes; constants and casts; arithmetic on stabilizer states.",
     note="Open finding D5 (pyclifford trace ignores the phase) is suppressed by a TLC-evaluated classifier (KF_TracePhase). Float rounding outside the model.",
     design="4/C15", technique="TLA+ polynomial algebra grounded in matrices + typed expression machine (TLC exhaustive) + replay, every step validated by TLC"),
  "C16": dict(
-    text="Every sampled map/state (random_clifford/pauli map and state, random_bit_state, brick-wall/on-site/global random circuits forward, backward and povm) is judged valid by TLC (ValidMap / TableauOK) for N<=6 (8); distribution: over fixed seed blocks all 24 signed one-qubit maps, all 720 N=2 symplectic classes (sample space enumerated by the TLC group walk), 16 sign patterns, 6^N Pauli-map tables must be reached with chi-square within 8 sigma, sign bits and measurement coins fair within 8 sigma, map-less gates resample per call and refuse compile; both packages. Validity of random maps / highly mixed random states on 64..66 qubits.",
+    text="Every sampled map/state (random_clifford/pauli map and state, random_bit_state, brick-wall/on-site/global random circuits forward, backward and povm) is judged valid by TLC (ValidMap / TableauOK) for N<=6 (8); distribution: over fixed seed blocks all 24 signed one-qubit maps, all 720 N=2 symplectic classes (sample space enumerated by the TLC group walk), 16 sign patterns, 6^N Pauli-map tables must be reached with chi-square within 8 sigma, sign bits and measurement coins fair within 8 sigma, map-less gates resample per call and refuse compile; both packages. Validity of random maps / highly mixed random states on 64..66 qubits. Exact per-row letter marginals for N=3,4 (20000 / 8000 samples), per-qubit marginals up to 66 qubits.",
     note="Frequencies are statistical (fixed seeds derived from VERIF_SEED, so reproducible); supports are exact. Tally arithmetic in the harness, acceptance region in TraceC16.tla.",
     design="4/C16", technique="TLA+ validity predicates and acceptance region (TLC) over sampled objects and fixed-seed tallies"),
  "C17": dict(
-    text="Heap.tla models object slots, buffers and modifies-sets (query / in place on receiver / in place on argument / copy / poke) and TLC enumerates all histories of length 5 over three slots; for every object kind (Pauli, list, monomial, polynomial, map, state, gate, layer, both circuit classes) every public method is called with whole-heap snapshots before/after (receiver, argument, bystanders bitwise), copies are compared, tested for shared buffers and poked on either side, and sampled TLC histories are replayed; TLC judges the frame conditions; both packages. Also: PureOK -- every deterministic query is asked again after its first answer was overwritten by the caller, and after every in-place method, and must answer like a freshly built object (no memo tables, no stale caches); 3-qubit query snapshots.",
+    text="Heap.tla models object slots, buffers and modifies-sets (query / in place on receiver / in place on argument / copy / poke) and TLC enumerates all histories of length 5 over three slots; for every object kind (Pauli, list, monomial, polynomial, map, state, gate, layer, both circuit classes) every public method is called with whole-heap snapshots before/after (receiver, argument, bystanders bitwise), copies are compared, tested for shared buffers and poked on either side, and sampled TLC histories are replayed; TLC judges the frame conditions; both packages. Also: PureOK -- every deterministic query is asked again after its first answer was overwritten by the caller, and after every in-place method, and must answer like a freshly built object (no memo tables, no stale caches); 3-qubit query snapshots. AfterOK: after a call with an object argument both parties are changed through public in-place methods and the other is re-observed (also from an empty receiving circuit); deepcopy / pickle copies (lenient); array arguments in the snapshot.",
     note="Lazily derived maps / recorded results of gates, layers, circuits are masked when unset before the call. compose() legitimately shares gate objects.",
     design="4/C17", technique="TLA+ heap/modifies-set model (TLC exhaustive histories) + whole-heap snapshot traces validated by TLC"),
  "C18": dict(
-    text="Postconditions only: for every non-identity string x sign x target qubit x causal flag (N<=3, N=4 thorough/sampled) TLC applies the recorded rotation gates of diagonalize() itself and checks +-Z on the target, causality (only qubits >= i0 touched, earlier generators fixed, restricted operator diagonalised); diagonalize(state) must decode to |0..0> and re-encode; pauli_diagonalize2 on all partner pairs of valid maps; front/condense/onsite kernels; SBRG: heff only I/Z strings, and for commuting Hamiltonians the circuit maps H exactly onto heff (exact dyadic coefficients); both packages where the API exists. Also: commuting Hamiltonians made of arbitrary group elements incl. the identity with every term leading (found D14), non-default tol / max_rate and couplings below the pruning tolerance. diagonalize() of 66/70-qubit operators.",
+    text="Postconditions only: for every non-identity string x sign x target qubit x causal flag (N<=3, N=4 thorough/sampled) TLC applies the recorded rotation gates of diagonalize() itself and checks +-Z on the target, causality (only qubits >= i0 touched, earlier generators fixed, restricted operator diagonalised); diagonalize(state) must decode to |0..0> and re-encode; pauli_diagonalize2 on all partner pairs of valid maps; front/condense/onsite kernels; SBRG: heff only I/Z strings, and for commuting Hamiltonians the circuit maps H exactly onto heff (exact dyadic coefficients); both packages where the API exists. Also: commuting Hamiltonians made of arbitrary group elements incl. the identity with every term leading (found D14), non-default tol / max_rate and couplings below the pruning tolerance. diagonalize() of 66/70-qubit operators. Dense 24-qubit diagonalize(state).",
     note="SBRG exactness only claimed for commuting terms, as the property states.",
     design="4/C18", technique="TLA+ postconditions over recorded circuits (Circuit!Forward evaluated by TLC) on exhaustive small inputs"),
  "C19": dict(
-    text="sample(): every sampled operator must be an element of the signed stabilizer group (TLC, StabSem!Grp) for all N<=2 tableaux and TLC-simulated N=3..5, uniformity by fixed-seed tallies (all elements reached, chi-square within 8 sigma); density_matrix: every group element exactly once with weight 2^-N up to N-r=10; binary_repr for all widths <=10; ClassicalShadow snapshots through a recording proxy circuit: valid, non-zero overlap, stabilised up to sign by the back-evolved basis, equal to the base measured in that basis for some outcomes, base untouched. Also: sample() on 63..130-qubit product states (N-r across 64): signs and per-generator frequencies judged by TLC.",
+    text="sample(): every sampled operator must be an element of the signed stabilizer group (TLC, StabSem!Grp) for all N<=2 tableaux and TLC-simulated N=3..5, uniformity by fixed-seed tallies (all elements reached, chi-square within 8 sigma); density_matrix: every group element exactly once with weight 2^-N up to N-r=10; binary_repr for all widths <=10; ClassicalShadow snapshots through a recording proxy circuit: valid, non-zero overlap, stabilised up to sign by the back-evolved basis, equal to the base measured in that basis for some outcomes, base untouched. Also: sample() on 63..130-qubit product states (N-r across 64): signs and per-generator frequencies judged by TLC. Tallies over many calls of 1-3 samples.",
     note="pyclifford only (the anchors are pyclifford files).",
     design="4/C19", technique="TLA+ group-membership / measurement semantics (TLC) over recorded samples, expansions and snapshots"),
  "C20": dict(
-    text="PauliSyntax.tla defines Parse / Print / Tokenize over token sequences; TLC proves for all operators N<=3 that every description (all prefix forms, code arrays with the phase code first, last or in the middle, repr and token formats) parses to the operator and that the token polynomial of pauli_tokenize equals the table; every description of every operator is replayed into pauli() as str / character list / list / tuple / array / dict, repr and tokenize outputs are compared exactly and re-parsed, lists: construction, L/N/len/weight, selection by int / slice / mask / index array, negation and multiplication by 1,-1,i,-i; both packages. 63..130-letter strings.",
+    text="PauliSyntax.tla defines Parse / Print / Tokenize over token sequences; TLC proves for all operators N<=3 that every description (all prefix forms, code arrays with the phase code first, last or in the middle, repr and token formats) parses to the operator and that the token polynomial of pauli_tokenize equals the table; every description of every operator is replayed into pauli() as str / character list / list / tuple / array / dict, repr and tokenize outputs are compared exactly and re-parsed, lists: construction, L/N/len/weight, selection by int / slice / mask / index array, negation and multiplication by 1,-1,i,-i; both packages. 63..130-letter strings. Plain-Python masks; printing of maps / states / lists as model drift.",
     note="Exhaustive for N<=3 descriptions; list/index expressions are seeded samples.",
     design="4/C20", technique="TLA+ syntax specification with round-trip theorems (TLC) + exhaustive replay of descriptions, trace validated by TLC"),
 }
